@@ -145,9 +145,37 @@ def dispatch_typed(method, has_id, rid, psel, leaf, hsel, tsel):
         FORM[0] = 0
 
 
-def dispatch(method, has_id, rid, psel, leaf, hsel, text="boom"):
+def _warm_up(s, warm):
+    """`warm` earlier messages on the same server (requests of several methods and notifications): each request
+    gets exactly one response bearing its id"""
+    for i in range(warm):
+        sel = i % 4
+        if sel == 0:
+            m, rid = JSONRPCMessage(jsonrpc="2.0", id=1000 + i, method="ping"), 1000 + i
+        elif sel == 1:
+            m, rid = JSONRPCMessage(jsonrpc="2.0", id="w%d" % i, method="tools/call", params={"name": "t", "arguments": {"a": "w"}}), "w%d" % i
+        elif sel == 2:
+            m, rid = JSONRPCMessage(jsonrpc="2.0", method="notifications/initialized"), None
+        else:
+            m, rid = JSONRPCMessage(jsonrpc="2.0", id=1000 + i, method="no/such"), 1000 + i
+        out = drive(s.protocol_handler.handle_message(m, None))
+        resp = out[0]
+        if rid is None:
+            if resp is not None:
+                return "warm-up:response-to-notification"
+        else:
+            if resp is None or isinstance(resp, list) or not same_json(dump(resp).get("id"), rid):
+                return "warm-up:not-exactly-one-response-with-the-id"
+    return "ok"
+
+
+def dispatch(method, has_id, rid, psel, leaf, hsel, text="boom", warm=0):
     s = make_server(hsel, text)
     params = params_shape(psel, leaf)
+    if warm:
+        r = _warm_up(s, warm)
+        if r != "ok":
+            return r
     try:
         msg = _msg(method, has_id, rid, params)
     except Exception:
@@ -395,3 +423,36 @@ def dispatch_session(mi, has_id, rid, sessmode, age, max_idle):
     if not has_id and isinstance(out, tuple) and out[0] is not None:
         return "response-to-notification"
     return "ok"
+
+
+# ------------------------------------------------------------------ size / count dimension
+from harness import sizes as _sizes  # noqa: E402
+
+_sizes.size_cases(70000, extra=_sizes.ENV_SIZES)
+
+
+def dispatch_nth(mi, has_id, k, hsel, lim=410):
+    """the (n+1)-th message handled by one server, n = c-1, c, c+1 for the integer constants c of the source"""
+    n = _sizes.pick(_sizes.size_cases(lim), k)
+    m = pick_method(mi)
+    psel = 6 if m == "tools/call" else (7 if m == "resources/read" else (9 if m == "initialize" else 0))
+    return dispatch(m, has_id, 7, psel, "2025-03-26" if m == "initialize" else "v", hsel, "boom", warm=n)
+
+
+def dispatch_long(mi, k, pat, where, hsel):
+    """a string of c-1, c, c+1 characters as (0) the request id, (1) a tool argument, (2) the tool name / uri,
+    (3) the method name, (4) the text of the handler's exception"""
+    text = _sizes.long_text(_sizes.pick(_sizes.size_cases(70000, extra=_sizes.ENV_SIZES), k), pat)
+    m = pick_method(mi)
+    if where == 0:
+        if text == "":
+            return "ok"
+        psel = 6 if m == "tools/call" else (7 if m == "resources/read" else 0)
+        return dispatch(m, True, text, psel, "v", hsel)
+    if where == 1:
+        return dispatch("tools/call", True, 7, 6, text, hsel)
+    if where == 2:
+        return dispatch("tools/call" if mi % 2 == 0 else "resources/read", True, 7, 2 if mi % 2 == 0 else 5, text + "?", hsel)
+    if where == 3:
+        return dispatch("x/" + text, True, 7, 0, "v", hsel)
+    return dispatch(m, True, 7, 6 if m == "tools/call" else (7 if m == "resources/read" else 0), "v", hsel, text)
